@@ -123,7 +123,9 @@ def make_design(rng, i: int) -> dict:
     focus = {'p_bg': 0.0, 'p_custom': 0.6, 'p_pam': 0.8, 'p_gtf': 0.95, 'p_table': 0.15, 'n_exons': rng.choice([1, 2, 3, 3]),
              'cds_mut': list(FREE), 'non_cds_mut': ['snv', '1del'], 'allow_short_cds': True, 'p_no_op': 0.6, 'p_revcomp': 1.0,
              'custom_kinds': ['snv', 'snv', 'mnv', 'ins', 'del', 'delins_u'], 'p_lower': 0.0, 'n_pam': [1, 2, 3], 'p_softmask': 0.0,
-             'exon_lens': rng.choice([[4, 5, 6, 7, 9, 12, 17, 21, 30, 31, 32, 45], [5, 7, 8, 10, 11]])}
+             'exon_lens': rng.choice([[4, 5, 6, 7, 9, 12, 17, 21, 30, 31, 32, 45], [5, 7, 8, 10, 11], [1, 1, 2, 2, 3, 5, 8]])}
+    if focus['exon_lens'][0] == 1:
+        focus['n_exons'] = rng.choice([3, 4, 4])         # micro-exons: codons spread over two or three exons
     if i % 3 == 2:
         # background substitutions (also protein-changing ones and MNVs across codon boundaries: both runs must refuse alike) and non-coding
         # deletions, mirrored with the design; insertions are left to C06 (its recorded finding about the base after an insertion is
